@@ -8,7 +8,9 @@ export GOFLAGS=-mod=mod GOPROXY=off GOSUMDB=off GOTOOLCHAIN=local
 cd /repo || exit 2
 if ! git diff --quiet; then echo "/repo is dirty"; exit 2; fi
 git apply "$patch" || { echo "patch does not apply"; exit 2; }
-trap 'git -C /repo checkout -- . ; git -C /repo clean -fdq' EXIT
+# evidence files written while /repo is mutated must not survive: keep the clean-tree ones
+rm -rf /tmp/mutcheck.evidence && cp -r /verif/evidence /tmp/mutcheck.evidence
+trap 'git -C /repo checkout -- . ; git -C /repo clean -fdq; rm -rf /verif/evidence; mv /tmp/mutcheck.evidence /verif/evidence' EXIT
 if go build ./... 2>/tmp/mutcheck.build.log && go test -vet=off -count=1 ./... >/tmp/mutcheck.test.log 2>&1; then
   echo "build+tests: ok"
 else
